@@ -1006,6 +1006,58 @@ impl Interp {
         }
     }
 
+    /// Tags of a transaction that ends without committing, by what it did.
+    fn noncommit_tags(&self, effects: &[Effect]) -> Vec<String> {
+        let mut tags: Vec<String> = vec![];
+        for e in effects {
+            tags.push(
+                match e {
+                    Effect::Insert { .. } => "txn.noncommit_after_insert",
+                    Effect::Update { .. } => "txn.noncommit_after_update",
+                    Effect::Delete { .. } => "txn.noncommit_after_delete",
+                    Effect::Create(_) => "txn.noncommit_after_create",
+                    Effect::Drop(_) => "txn.noncommit_after_drop",
+                    Effect::AddUnique { .. } => "txn.noncommit_after_create_index",
+                    Effect::AddColumn { .. } | Effect::DropColumn { .. } | Effect::AlterCol { .. } => "txn.noncommit_after_alter",
+                }
+                .to_string(),
+            );
+        }
+        // deleted a committed row and wrote its unique key again (the index entry of the old row is taken over)
+        let c = &self.model.committed;
+        let mut deleted: Vec<(String, usize, String)> = vec![];
+        for e in effects {
+            match e {
+                Effect::Delete { table, id } => {
+                    if let Some(tb) = c.tables.get(table) {
+                        if let Some(r) = tb.rows.get(id) {
+                            for ui in 0..tb.def.uniques.len() {
+                                if let Some(k) = Self::key_of(&tb.def, ui, r) {
+                                    deleted.push((table.clone(), ui, k));
+                                }
+                            }
+                        }
+                    }
+                }
+                Effect::Insert { table, row, .. } | Effect::Update { table, row, .. } => {
+                    if let Some(tb) = c.tables.get(table) {
+                        for ui in 0..tb.def.uniques.len() {
+                            if let Some(k) = Self::key_of(&tb.def, ui, row) {
+                                if deleted.contains(&(table.clone(), ui, k)) {
+                                    tags.push("txn.noncommit_after_reinsert_of_deleted_key".into());
+                                }
+                            }
+                        }
+                    }
+                }
+                _ => {}
+            }
+        }
+        tags.sort();
+        tags.dedup();
+        tags
+    }
+
     /// Rows matched by a writing statement that some other transaction (open, or committed after
     /// `begin_epoch`) has updated or deleted: a write-write conflict under snapshot isolation.
     fn ww_conflict_rows(&self, stmt: &Stmt, view: &State, me: Option<u8>, begin_epoch: u64) -> bool {
@@ -1290,19 +1342,9 @@ impl Interp {
                     let others: Vec<String> = tags.iter().filter(|t| **t != doom_tag).cloned().collect();
                     // the session must be allowed to roll back later: none of the non-commit kinds it would carry
                     // (its own effects so far plus the partial insert) may be excluded by another finding
-                    let mut end_tags: Vec<&str> = vec!["txn.rollback", "txn.drop_session", "txn.noncommit_after_insert"];
-                    for e in &txn.effects {
-                        end_tags.push(match e {
-                            Effect::Insert { .. } => "txn.noncommit_after_insert",
-                            Effect::Update { .. } => "txn.noncommit_after_update",
-                            Effect::Delete { .. } => "txn.noncommit_after_delete",
-                            Effect::Create(_) => "txn.noncommit_after_create",
-                            Effect::Drop(_) => "txn.noncommit_after_drop",
-                            Effect::AddUnique { .. } => "txn.noncommit_after_create_index",
-                            Effect::AddColumn { .. } | Effect::DropColumn { .. } | Effect::AlterCol { .. } => "txn.noncommit_after_alter",
-                        });
-                    }
-                    let may_roll_back = !end_tags.iter().any(|t| self.excluded.contains_key(*t)) && matches!(stmt, Stmt::Insert { .. });
+                    let mut end_tags: Vec<String> = vec!["txn.rollback".into(), "txn.drop_session".into(), "txn.noncommit_after_insert".into()];
+                    end_tags.extend(self.noncommit_tags(&txn.effects));
+                    let may_roll_back = !end_tags.iter().any(|t| self.excluded.contains_key(t)) && matches!(stmt, Stmt::Insert { .. });
                     if may_roll_back && tags.contains(&doom_tag) && self.excluded.contains_key(&doom_tag) && !others.iter().any(|t| self.excluded.contains_key(t)) {
                         self.trace(format!("[{i}] s{s}: {sql}   -- fails half-way; session {s} will be rolled back"));
                         self.tags.extend(others);
@@ -1439,20 +1481,7 @@ impl Interp {
                 if was_doomed {
                     tags.push("txn.noncommit_after_insert".to_string());
                 }
-                for e in &txn.effects {
-                    tags.push(
-                        match e {
-                            Effect::Insert { .. } => "txn.noncommit_after_insert",
-                            Effect::Update { .. } => "txn.noncommit_after_update",
-                            Effect::Delete { .. } => "txn.noncommit_after_delete",
-                            Effect::Create(_) => "txn.noncommit_after_create",
-                            Effect::Drop(_) => "txn.noncommit_after_drop",
-                            Effect::AddUnique { .. } => "txn.noncommit_after_create_index",
-                            Effect::AddColumn { .. } | Effect::DropColumn { .. } | Effect::AlterCol { .. } => "txn.noncommit_after_alter",
-                        }
-                        .to_string(),
-                    );
-                }
+                tags.extend(self.noncommit_tags(&txn.effects));
                 if let Some(t) = tags.iter().find(|t| self.excluded.contains_key(*t)).cloned() {
                     // an open finding makes this kind of rollback fail in a known way: commit instead, and count it
                     self.skipped.push(t);
@@ -1537,18 +1566,7 @@ impl Interp {
                     }
                 }
                 if tags.iter().any(|t| t == "batch.failing_member") {
-                    for e in &t.effects {
-                        let tg = match e {
-                            Effect::Insert { .. } => "txn.noncommit_after_insert",
-                            Effect::Update { .. } => "txn.noncommit_after_update",
-                            Effect::Delete { .. } => "txn.noncommit_after_delete",
-                            Effect::Create(_) => "txn.noncommit_after_create",
-                            Effect::Drop(_) => "txn.noncommit_after_drop",
-                            Effect::AddUnique { .. } => "txn.noncommit_after_create_index",
-                            Effect::AddColumn { .. } | Effect::DropColumn { .. } | Effect::AlterCol { .. } => "txn.noncommit_after_alter",
-                        };
-                        tags.push(tg.to_string());
-                    }
+                    tags.extend(self.noncommit_tags(&t.effects));
                 }
                 if self.skip_if_excluded(&tags) {
                     return None;
@@ -1654,20 +1672,7 @@ impl Interp {
                     // aborting these sessions is a non-commit end: respect the exclusions of open findings
                     let mut tags = vec![];
                     for t in self.txns.values() {
-                        for e in &t.effects {
-                            tags.push(
-                                match e {
-                                    Effect::Insert { .. } => "txn.noncommit_after_insert",
-                                    Effect::Update { .. } => "txn.noncommit_after_update",
-                                    Effect::Delete { .. } => "txn.noncommit_after_delete",
-                                    Effect::Create(_) => "txn.noncommit_after_create",
-                                    Effect::Drop(_) => "txn.noncommit_after_drop",
-                                    Effect::AddUnique { .. } => "txn.noncommit_after_create_index",
-                                    Effect::AddColumn { .. } | Effect::DropColumn { .. } | Effect::AlterCol { .. } => "txn.noncommit_after_alter",
-                                }
-                                .to_string(),
-                            );
-                        }
+                        tags.extend(self.noncommit_tags(&t.effects));
                     }
                     if self.skip_if_excluded(&tags) {
                         return None;
